@@ -92,15 +92,25 @@ def clauses (prop : String) (cfg : NetCfg) : St → List Ev → List ImplOut →
       | .setup =>
         if prop == "C20" then [("address_claim_on_setup", o.frames == [addressClaimed cfg.address cfg.name])] else []
       | .frame f =>
-        if prop == "C20" then
+        if prop == "C11" then
+          -- only frames whose source is a configured unit may produce signals
+          [("signals_only_from_configured_units", o.signals.isEmpty || (units cfg).any fun u => u.da == source f.id || u.kind == .sim)]
+        else if prop == "C12" then
+          [("signals_as_decoded", o.signals == r.2.signals.map DrvDrv.showSig)]
+        else if prop == "C20" then
           let fn : Frame := { id := f.id, data := J1939.normalise f.data }
           [("request_responder", match respond cfg fn with | some fr => o.frames == fr | none => o.frames.isEmpty)]
         else []
       | .motion m =>
-        if prop == "C01" then
+        if prop == "C01" || prop == "C02" then
           -- the accepted command reaches every hydraulic unit, heard or not
           [("command_reaches_every_hcu",
             o.frames == ((units cfg).filter (·.kind == .hcu)).flatMap fun u => Hcu.encodeMotion u.da u.sa m)]
+        else []
+      | .engine _ =>
+        if prop == "C08" then
+          -- what reaches the engine is what the driver model (governor + Volvo encoder) prescribes for this history
+          [("engine_frames_as_prescribed", o.frames == r.2.frames)]
         else []
       | .teardown =>
         if prop == "C16" then
